@@ -1,9 +1,11 @@
 CONSTANTS
+  FixIterShort = TRUE
+  FixDataSlice = TRUE
   Caps = {0, 8, 15, 16, 17, 24, 31, 32, 40, 47, 48, 64, 80}
   Sizes = {0, 1, 4, 8, 9, 17}
   MaxMsgs = 3
   Hdr = 16
   Align = 8
 SPECIFICATION Spec
-INVARIANTS Accounting IterHeaders IterAtHeader RoundTrip PayloadInside NoPanicModuloKnown
+INVARIANTS Accounting IterHeaders IterAtHeader RoundTrip PayloadInside DataSliceExact NoPanicModuloKnown IterNeverPanics
 PROPERTIES PushAnswer
